@@ -23,11 +23,11 @@ vars == <<l, w, toks, clis, nsa, skip, cnt>>
 
 N == INSTANCE Netcode WITH Tokens <- toks, Clients <- clis, MaxClients0 <- 0, ServerAddrs <- nsa, TokenTable <- 2048, TokenSingleUse <- FALSE
 
-World0(maxc, start) ==
-    [slots |-> [i \in 1..maxc |-> N!NoConn], pending |-> <<>>, entries |-> <<>>, maxc |-> maxc, chalSeq |-> 0, gseq |-> N!GBASE, now |-> start,
+World0(maxc, start, secure) ==
+    [secure |-> secure, slots |-> [i \in 1..maxc |-> N!NoConn], pending |-> <<>>, entries |-> <<>>, maxc |-> maxc, chalSeq |-> 0, gseq |-> N!GBASE, now |-> start,
      cl |-> <<>>, consumed |-> {}, net |-> <<>>, pres |-> <<>>]
 
-Init == /\ l = 1 /\ w = World0(1, 0) /\ toks = <<>> /\ clis = <<>> /\ nsa = 1 /\ skip = FALSE
+Init == /\ l = 1 /\ w = World0(1, 0, TRUE) /\ toks = <<>> /\ clis = <<>> /\ nsa = 1 /\ skip = FALSE
         /\ cnt = [runs |-> 0, matched |-> 0, drift |-> 0, accepted |-> 0, unmodelled |-> 0]
 
 \* the parts of a datagram description both sides can know
@@ -93,7 +93,7 @@ Next == /\ l <= Len(Rec)
         /\ l' = l + 1
         /\ LET e == Rec[l] IN
            IF e.ev = "reset"
-           THEN /\ w' = World0(e.cfg.max_clients, e.cfg.start_ms) /\ toks' = <<>> /\ clis' = <<>> /\ nsa' = e.cfg.server_addrs /\ skip' = FALSE
+           THEN /\ w' = World0(e.cfg.max_clients, e.cfg.start_ms, IF "secure" \in DOMAIN e.cfg THEN e.cfg.secure ELSE TRUE) /\ toks' = <<>> /\ clis' = <<>> /\ nsa' = e.cfg.server_addrs /\ skip' = FALSE
                 /\ cnt' = [cnt EXCEPT !.runs = @ + 1, !.accepted = IF ~skip /\ cnt.runs > 0 THEN @ + 1 ELSE @]
            ELSE IF skip THEN UNCHANGED <<w, toks, clis, nsa, skip, cnt>>
            ELSE IF e.ev = "token"
